@@ -16,7 +16,7 @@ PROPS = os.path.join(l4.L4_DIR, 'XrlL4', 'Props', 'C20.lean')
 TOOLS = os.path.join(VERIF, 'tools')
 # which theorem speaks about which kind of difference (used to explain a failed build)
 THEOREM_OF = dict(constant='constants_agree_%s', family='families_complete_%s', prototype='prototypes_agree_%s',
-                  reference='prototypes_agree_%s', export='declared_is_exported', version='versions_agree', duplicate='constants_agree_%s',
+                  reference='prototypes_agree_%s', export='declared_is_exported', **{'constant-dynamic': 'constants_agree_java_dynamic'}, version='versions_agree', duplicate='constants_agree_%s',
                   struct='struct_layouts_agree_%s', **{'idl-common': 'idl_common_exact', 'binding-body': 'cython_bodies_bind_same_name',
                      'wrapper-binding': '%s_wrappers_bind_same_name', 'public-signature': 'pascal_public_signatures_agree', 'iface-impl': 'pascal_iface_matches_impl',
                      'idl-routine': 'idl_routines_agree', 'idl-sources': 'idl_sources_same', 'build-sources': 'library_sources_agree',
@@ -66,6 +66,69 @@ def build_exports(ctx):
     return path, len(syms)
 
 
+JAVA_PROBE = '''import java.lang.reflect.Field;
+public class XrlConsts {
+  /* prints the run-time loaded constants of class Xraylib after its static initialiser (XRayInit) has run: NAME <declared type> <bits of the value as double> */
+  public static void main(String[] names) throws Exception {
+    Class<?> k = Class.forName("com.github.tschoonj.xraylib.Xraylib");
+    for (String n : names) {
+      Field f;
+      try { f = k.getField(n); } catch (NoSuchFieldException e) { System.out.println(n + " missing 0"); continue; }
+      double v = f.getType() == int.class ? (double) f.getInt(null) : f.getDouble(null);
+      System.out.println(n + " " + f.getType().getName() + " " + Long.toHexString(Double.doubleToRawLongBits(v)));
+    }
+  }
+}
+'''
+
+def java_dynamic_run(ctx, dynamic, cnames):
+    """the constants of java/Xraylib.java that have no literal (XRayInit() fills them from xraylib.dat, which java/pr_data_java.c writes), OBSERVED:
+    the generator and the Java classes are built from the working tree exactly as C19 builds them (props/c19.py: build_java_dat,
+    build_java_classes), a small Java program prints the fields after class initialisation, a small C program prints the macros of the same
+    names from the public headers; the two must be bit-identical.  -> (differences, observed values).  BuildError if Java cannot be built."""
+    import struct
+    from props import c19
+    t = time.time()
+    sc = ctx.sc; jd = sc.path('java_c20')
+    names = [n for n, ty, ln in dynamic]
+    if not names: return [], []
+    c19.build_java_dat(sc, jd)
+    c19.build_java_classes(jd)
+    src = sc.path('XrlConsts.java'); open(src, 'w').write(JAVA_PROBE)
+    pj = subprocess.run(['javac', '-encoding', 'UTF-8', '-nowarn', '-cp', os.path.join(jd, 'classes'), '-d', os.path.join(jd, 'classes'), src], capture_output=True, text=True)
+    if pj.returncode != 0: raise BuildError('javac failed on the constant probe: ' + (pj.stdout + pj.stderr)[-1500:])
+    pr = subprocess.run(['java', '-XX:+UseSerialGC', '-XX:TieredStopAtLevel=1', '-cp', os.path.join(jd, 'classes'), 'XrlConsts'] + names, capture_output=True, text=True, timeout=300)
+    if pr.returncode != 0: raise BuildError('the Java constant probe failed (class initialisation of Xraylib?): ' + (pr.stdout + pr.stderr)[-1500:])
+    jv = {}
+    for l in pr.stdout.splitlines():
+        w = l.split()
+        if len(w) == 3: jv[w[0]] = (w[1], int(w[2], 16))
+    if set(jv) != set(names): raise BuildError('the Java constant probe answered for %s, asked for %s' % (sorted(jv), names))
+    # the C headers' values of the same names, through the real compiler
+    cn = [n for n in names if n in cnames]
+    csrc = sc.path('c20_hdrvals.c')
+    with open(csrc, 'w') as f:
+        f.write('#include <stdio.h>\n#include <string.h>\n#include <stdint.h>\n#include "xraylib.h"\n'
+                'static void pr(const char *n, double v) { uint64_t b; memcpy(&b, &v, 8); printf("%s %llx\\n", n, (unsigned long long)b); }\nint main(void) {\n')
+        for n in cn: f.write('  pr("%s", (double)(%s));\n' % (n, n))
+        f.write('  return 0;\n}\n')
+    exe = sc.path('c20_hdrvals')
+    cbuild.run(['clang-14'] + cbuild.cflags(REPO, sc.path('b')) + ['-O0', '-w', csrc, '-o', exe])
+    pc = subprocess.run([exe], capture_output=True, text=True)
+    if pc.returncode != 0: raise BuildError('the header-value program failed: ' + pc.stderr[-500:])
+    cv = {l.split()[0]: int(l.split()[1], 16) for l in pc.stdout.splitlines() if len(l.split()) == 2}
+    fl = lambda b: struct.unpack('<d', struct.pack('<Q', b))[0]
+    diffs = []; obs = []
+    for n, ty, ln in dynamic:
+        jt, jb = jv[n]
+        obs.append(dict(name=n, java_type=jt, java_value=repr(fl(jb)), c_header=repr(fl(cv[n])) if n in cv else None, identical=(n in cv and cv[n] == jb)))
+        if n in cv and cv[n] != jb:
+            diffs.append(dict(kind='constant-dynamic', binding='java', name=n, file='java/Xraylib.java', line=ln, found=repr(fl(jb)), expected=repr(fl(cv[n])), key='java/Xraylib.java %s' % n,
+                              what='observed: after XRayInit() the running class has Xraylib.%s = %r (xraylib.dat written by java/pr_data_java.c of the working tree); the C headers have %s = %r' % (n, fl(jb), n, fl(cv[n]))))
+    ctx.tick('java_dynamic', t)
+    return diffs, obs
+
+
 def run(tier, seed, replay=None):
     return l4.guarded(ID, 'proof', _run, tier, seed, replay)
 
@@ -94,6 +157,20 @@ def _run(ctx, replay):
         if getattr(ctx, 'source_list_differs', None):
             tie.append('src/meson.build builds libxrl from a different source list than vlib/cbuild.py LIBXRL (which every other check links): %s' % ctx.source_list_differs)
     diffs = js['diffs'] if js else []
+    if js: tie += js.get('soft_tie', [])
+    # ---- the Java constants without literal, observed in the running class (complements the static table `const_java_dynamic`)
+    java_obs = None
+    if js:
+        try:
+            dd, java_obs = java_dynamic_run(ctx, [tuple(x) for x in js['java_dynamic']], set(js['c']['constants']))
+            fk = {k for k, _ in l4.load_findings(ID)}
+            for d in dd:
+                old = next((x for x in diffs if x['key'] == d['key'] and x['kind'] == d['kind']), None)
+                if old: old['what'] += '  |  ' + d['what']
+                else: diffs.append(dict(d, known=d['key'] in fk))
+        except (BuildError, OSError, subprocess.SubprocessError) as e:
+            tie.append('the run-time loaded Java constants (%s) could not be observed - java/pr_data_java.c + javac + java on the working tree failed: %s' % (
+                       ', '.join(x[0] for x in js['java_dynamic']), str(e)[:1500]))
     if replay:
         want = {l.split(' ', 1)[1].strip() for l in open(replay) if l.startswith('entry ')}
         diffs = [d for d in diffs if d['key'] in want]
@@ -171,13 +248,14 @@ def _run(ctx, replay):
                differences=[dict(key=d['key'], what=d['what'], known=bool(d.get('known'))) for d in diffs][:100],
                known_findings_reproduced=len(known), new_violations=len(new),
                broken=dict(proof=proof_broken, tie=tie, other=problems),
-               idl_common=js['idl'] if js else None, java_loaded_at_runtime=js['java_dynamic'] if js else None,
+               idl_common=js['idl'] if js else None, java_loaded_at_runtime=dict(fields=js['java_dynamic'], feed=js.get('java_dynamic_feed'), observed_in_the_running_class=java_obs) if js else None,
                wrappers=js['wrappers'] if js else None, idl_glue_defined_but_not_registered=js['idl_routines']['defined_not_registered'] if js else None,
                library_build=dict(meson=len(js['build']['meson']), automake=len(js['build']['automake']), built=js['build']['built'], facts=js['build']['facts']) if js else None,
                libtool=js['libtool'] if js else None, swig_invocations=js['swig_invocations'] if js else None)
     core.write_evidence(ctx, 'proof', cov, len(new) + (1 if broken and not new else 0),
                         ['the bindings\' run-time behaviour (Fortran/Pascal/Python/Java/IDL compilers, SWIG) is not modelled: declarations are compared, not executed',
-                         'Java constants without initialiser (RE2, MEC2, AVOGNUM, KEV2ANGST, R_E, ZMAX, …) are read at class-load time from the data file written by java/pr_data_java.c, which prints the C macros themselves; they are outside the tables',
+                         'Java constants without initialiser (ZMAX … R_E) are read at class-load time from the head of xraylib.dat, written by java/pr_data_java.c: covered statically (both ends lexed, table const_java_dynamic, '
+                         'little-endian x86 byte order assumed on both sides) and by observation (the generator and the classes are built and a Java program prints the fields; needs javac/java on PATH, else a broken tie)',
                          'Fortran real literals are compared as exact decimals (the default-kind rounding of an unsuffixed literal is not modelled)',
                          'record layouts are compared as field sequences under each language\'s type map (Fortran BIND(C) and Pascal {$PACKRECORDS C} are taken to lay out equal sequences equally); '
                          'a Pascal `array of T` field and `PAnsiChar` count as pointers, a Pascal enumeration as int',
